@@ -116,11 +116,11 @@ Qed.
 Lemma write_raw_ok c w p : okw w -> wres_ok (write_raw c w p).
 Proof. intros H. unfold write_raw. apply wrw_ok, H. Qed.
 
-Lemma sep_ok w (trips : nat) (sep : bytes) :
+Lemma sep_ok w (trips : nat) (sep out : bytes) :
   okw w ->
   wres_ok (match trips, sep with
            | O, _ | _, [] => (w, None)
-           | _, _ => let (w', ok) := wr_write w sep in (w', if ok then None else Some EWriter)
+           | _, _ => let (w', ok) := wr_write w out in (w', if ok then None else Some EWriter)
            end).
 Proof.
   intros H. destruct trips; [left; auto|]. destruct sep; [left; auto|]. apply wrw_ok, H.
@@ -224,10 +224,11 @@ Section Loops1.
     induction fuel as [|fuel IH]; intros c w trips cur Hw; cbn [cloop_iter];
       (destruct (cloop_allows condOp cur limv) as [allow|]; [|apply cloop_finish_inv, Hw]);
       (destruct (allow && (brkD c =? 0)); [|apply cloop_finish_inv, Hw]); [exact I|].
-    pose proof (sep_ok w trips sep Hw) as S.
+    match goal with |- context [wr_write w ?x] => set (out := x) end.
+    pose proof (sep_ok w trips sep out Hw) as S.
     destruct (match trips, sep with
               | O, _ | _, [] => (w, None)
-              | _, _ => let (w', ok) := wr_write w sep in (w', if ok then None else Some EWriter)
+              | _, _ => let (w', ok) := wr_write w out in (w', if ok then None else Some EWriter)
               end) as [w1 sepe].
     destruct S as [[S1 S2]|S]; cbn [fst snd] in *; subst sepe; [|okc].
     match goal with |- context [bodyf ?c0 w1] => pose proof (Hbody c0 w1 S2) as B; destruct (bodyf c0 w1) as [c' w'|c' w'|c' w' e| |] end;
@@ -254,10 +255,11 @@ Section Loops1.
     - apply rloop_finish_inv, Hw.
     - match goal with |- context [0 <? brkD ?c0] => set (cc := c0) end.
       destruct (0 <? brkD cc); [apply rloop_finish_inv, Hw|].
-      pose proof (sep_ok w trips sep Hw) as S.
+      match goal with |- context [wr_write w ?x] => set (out := x) end.
+      pose proof (sep_ok w trips sep out Hw) as S.
       destruct (match trips, sep with
                 | O, _ | _, [] => (w, None)
-                | _, _ => let (w', ok) := wr_write w sep in (w', if ok then None else Some EWriter)
+                | _, _ => let (w', ok) := wr_write w out in (w', if ok then None else Some EWriter)
                 end) as [w1 sepe].
       destruct S as [[S1 S2]|S]; cbn [fst snd] in *; subst sepe; [|okc].
       pose proof (Hbody cc w1 S2) as B. destruct (bodyf cc w1) as [c' w'|c' w'|c' w' e| |];
@@ -379,10 +381,10 @@ Proof. intros Hw E. pose proof (render_inv flits lookup budget depth t c w Hw) a
 
 (* the two loop drivers, cut after the separator write (so that a run can be followed from
    the middle of an iteration); both equations hold by computation *)
-Definition sepw (sep : bytes) (w : wr) (trips : nat) : wr * option err :=
+Definition sepw (sep out : bytes) (w : wr) (trips : nat) : wr * option err :=
   match trips, sep with
   | O, _ | _, [] => (w, None)
-  | _, _ => let (w', ok) := wr_write w sep in (w', if ok then None else Some EWriter)
+  | _, _ => let (w', ok) := wr_write w out in (w', if ok then None else Some EWriter)
   end.
 
 Section CLoopAfter.
@@ -419,7 +421,7 @@ Section CLoopAfter.
     | Some allow =>
       if allow && (brkD c =? 0) then
         let c := ctx_set_static cnt (VCell idx) c in
-        let '(w, sepe) := sepw sep w trips in
+        let '(w, sepe) := sepw sep (region_text c sep) w trips in
         match sepe with
         | Some e => Out (set_cerr (Some e) c) w (Some e)
         | None => cloop_after fuel' (chQB c) trips cur (bodyf (set_chQB true c) w)
@@ -466,7 +468,7 @@ Section RLoopAfter.
     let c := rloop_bind kb ev c in
     if 0 <? brkD c then rfin c w (S calls)
     else
-      let '(w, sepe) := sepw sep w trips in
+      let '(w, sepe) := sepw sep (region_text c sep) w trips in
       match sepe with
       | Some e => Out (set_cerr (Some e) c) w (Some e)
       | None => rloop_after r0 calls trips (bodyf c w)
@@ -512,8 +514,8 @@ Proof. intros H. split; [exact H|apply ext_refl]. Qed.
 Lemma Hfrom_push c w b e : Hfrom w (Out c (wpush w b) e).
 Proof. split; [apply healthy_push|apply ext_push]. Qed.
 
-Lemma sepw_H sep w trips :
-  healthy w -> snd (sepw sep w trips) = None /\ healthy (fst (sepw sep w trips)) /\ ext w (fst (sepw sep w trips)).
+Lemma sepw_H sep out w trips :
+  healthy w -> snd (sepw sep out w trips) = None /\ healthy (fst (sepw sep out w trips)) /\ ext w (fst (sepw sep out w trips)).
 Proof.
   intros H. unfold sepw. destruct trips; [cbn; auto using ext_refl|].
   destruct sep; [cbn; auto using ext_refl|]. rewrite (wr_write_push _ _ H). cbn [fst snd].
@@ -622,8 +624,9 @@ Section LoopsH.
     induction fuel as [|fuel IH]; intros c w trips cur Hw; [rewrite cloop_iter_O|rewrite cloop_iter_S];
       (destruct (cloop_allows condOp cur limv) as [allow|]; [|apply cloop_finish_H, Hw]);
       (destruct (allow && (brkD c =? 0)); [|apply cloop_finish_H, Hw]); [exact I|].
-    cbv zeta. pose proof (sepw_H sep w trips Hw) as (S1 & S2 & S3).
-    destruct (sepw sep w trips) as [w1 sepe]. cbn [fst snd] in *. subst sepe.
+    cbv zeta. match goal with |- context [sepw sep ?x w trips] => set (out := x) end.
+    pose proof (sepw_H sep out w trips Hw) as (S1 & S2 & S3).
+    destruct (sepw sep out w trips) as [w1 sepe]. cbn [fst snd] in *. subst sepe.
     apply (Hfrom_trans _ w1); [exact S3|]. apply cloop_after_H; [exact IH|]. apply Hbody, S2.
   Qed.
 
@@ -656,8 +659,9 @@ Section LoopsH.
     - apply rloop_finish_H, Hw.
     - rewrite rloop_each_cons. cbv zeta.
       destruct (0 <? brkD _); [apply rloop_finish_H, Hw|].
-      pose proof (sepw_H sep w trips Hw) as (S1 & S2 & S3).
-      destruct (sepw sep w trips) as [w1 sepe]. cbn [fst snd] in *. subst sepe.
+      match goal with |- context [sepw sep ?x w trips] => set (out := x) end.
+      pose proof (sepw_H sep out w trips Hw) as (S1 & S2 & S3).
+      destruct (sepw sep out w trips) as [w1 sepe]. cbn [fst snd] in *. subst sepe.
       apply (Hfrom_trans _ w1); [exact S3|]. apply rloop_after_H; [exact IH|]. apply Hbody, S2.
   Qed.
 End LoopsH.
@@ -826,7 +830,7 @@ Qed.
 Lemma write_raw_sim c wf wh p : sync wf wh -> SimW (write_raw c wf p) (write_raw c wh p).
 Proof. intros H. unfold write_raw. apply wrw_sim, H. Qed.
 
-Lemma sepw_sim sep wf wh trips : sync wf wh -> SimW (sepw sep wf trips) (sepw sep wh trips).
+Lemma sepw_sim sep out wf wh trips : sync wf wh -> SimW (sepw sep out wf trips) (sepw sep out wh trips).
 Proof.
   intros H. unfold sepw.
   assert (G : SimW (wf, None) (wh, None)).
@@ -1022,8 +1026,9 @@ Section LoopsS.
     induction fuel as [|fuel IH]; intros c wf wh trips cur Hs; [rewrite !cloop_iter_O|rewrite !cloop_iter_S];
       (destruct (cloop_allows condOp cur limv) as [allow|]; [|apply cloop_finish_sim, Hs]);
       (destruct (allow && (brkD c =? 0)); [|apply cloop_finish_sim, Hs]); [reflexivity|].
-    cbv zeta. pose proof (sepw_sim sep wf wh trips Hs) as S.
-    destruct (sepw sep wf trips) as [wf1 ef]. destruct (sepw sep wh trips) as [wh1 eh].
+    cbv zeta. match goal with |- context [sepw sep ?x wf trips] => set (out := x) end.
+    pose proof (sepw_sim sep out wf wh trips Hs) as S.
+    destruct (sepw sep out wf trips) as [wf1 ef]. destruct (sepw sep out wh trips) as [wh1 eh].
     destruct S as (S1 & S2 & S3). cbn [fst snd] in *. subst eh.
     destruct S3 as [[-> S3]|(-> & S3 & S4)].
     - apply (cloop_after_sim _ _ _ _ _ _ _ _ _ IH _ _ _ wh1); [apply HbodyH, S2|apply Hbody, S3].
@@ -1078,8 +1083,9 @@ Section LoopsS.
     - apply rloop_finish_sim, Hs.
     - rewrite !rloop_each_cons. cbv zeta.
       destruct (0 <? brkD _); [apply rloop_finish_sim, Hs|].
-      pose proof (sepw_sim sep wf wh trips Hs) as S.
-      destruct (sepw sep wf trips) as [wf1 ef]. destruct (sepw sep wh trips) as [wh1 eh].
+      match goal with |- context [sepw sep ?x wf trips] => set (out := x) end.
+      pose proof (sepw_sim sep out wf wh trips Hs) as S.
+      destruct (sepw sep out wf trips) as [wf1 ef]. destruct (sepw sep out wh trips) as [wh1 eh].
       destruct S as (S1 & S2 & S3). cbn [fst snd] in *. subst eh.
       destruct S3 as [[-> S3]|(-> & S3 & S4)].
       + apply (rloop_after_sim _ _ _ _ _ _ IH _ _ wh1); [apply HbodyH, S2|apply Hbody, S3].
